@@ -653,6 +653,34 @@ def rule_r14(ctx):
                              % (f.name, arr, arr, l[1], l[2], arr, rr[1], rr[2], l[1], min(inits) if inits else "?", first))
                 else:
                     r.ob(f, "%s: %s[0] taken, remaining entries moved down by one starting at slot 0" % (f.name, arr))
+                # the loop that shifts runs over the old count: the count is decremented after the shift, not before it
+                # (with the count lowered first the last entry is never moved down: it is lost, the one before it doubled)
+                for d in decs:
+                    cf = last_field(d.node["e"])
+                    reads_cnt = [b for b in f.blocks.values() if b.term and len(b.succs) == 2 and f.cond(b.id) is not None and
+                                 any(m.get("k") == "mem" and last_field(m) == cf for m in walk(f.cond(b.id)))]
+                    for b in reads_cnt:
+                        # only the loop that contains this shift
+                        if (t.b, t.i) not in f.reach((b.id, len(b.elems))) or (b.id, len(b.elems)) not in f.reach((t.b, t.i + 1)):
+                            continue
+                        n += 1
+                        before = (b.id, len(b.elems)) in f.reach((d.b, d.i + 1))
+                        if l[2] == 0:
+                            # q[i] = q[i + 1]: the loads run one ahead, so the bound must be the new (lowered) count
+                            if before:
+                                r.ob(f, "%s: q[i] = q[i+1] runs over the lowered count" % f.name)
+                            else:
+                                ctx.fail(r, f, "shift of %s reads one entry past the count" % arr, d.line,
+                                         "%s moves %s[i] = %s[i+1] up to the old count (%s is decremented afterwards, line %s): the "
+                                         "last load is one slot past the entries" % (f.name, arr, arr, cf, d.line))
+                            continue
+                        if before:
+                            ctx.fail(r, f, "count of %s lowered before the shift" % arr, d.line,
+                                     "%s decrements %s (line %s) before the loop that moves the entries down and whose bound is that "
+                                     "count: the last queued entry is not moved, so it is never handed out, and the entry in front "
+                                     "of it is handed out twice" % (f.name, cf, d.line))
+                        else:
+                            r.ob(f, "%s: the count is decremented after the shift" % f.name)
     if n < 1:
         raise AnalysisBroken("no array queue with a head removal found (sfd_start_conn)")
 
